@@ -87,6 +87,14 @@ def judge(s):
 
 
 def _judge(s):
+    # the schema has been rendered as a nested fragment before (public `indent` keyword of the
+    # representor): what was done with a schema earlier must not show in its repr
+    try:
+        frag = represent(s, indent=4)
+        if represent(s, indent=4) != frag:
+            return "represent-indent-not-deterministic"
+    except Exception as e:  # noqa: BLE001
+        return f"represent-indent-raises:{type(e).__name__}"
     try:
         text = repr(s)
     except Exception as e:  # noqa: BLE001
